@@ -1154,25 +1154,36 @@ def c_bool(b):
     return "true" if b else "false"
 
 
+def scripted_bit(triple, salt):
+    """scripted seed test: a fixed pseudo-random function of the seed face's vertex ids"""
+    a, b, c = (int(x) for x in triple)
+    return ((a * 7349 + b * 1931 + c * 577 + salt) * 2654435761 >> 7) % 2 == 1
+
+
 def impl_index_run(faces, verts=None, script=None):
     """run the three index-level functions of /repo on one face list.
-    verts given  -> the real is_facet_inwards decides the seeds (its results are recorded)
-    script given -> is_facet_inwards is replaced by the scripted bits (pure index-level run)"""
+    verts given  -> the real is_facet_inwards decides the seeds (its results are recorded per seed face)
+    script given -> is_facet_inwards is replaced by scripted_bit(seed face, script) (pure index-level run; the
+                    vertices get distinct dummy coordinates so that the seed face can be identified)"""
     farr = np.array(faces, dtype=int).reshape(-1, 3)
     open_edges = tm.get_open_edges(farr)
     subsets = tm.get_disconnected_faces_subsets(farr)
     calls, bits = [], []
     orig = tm.is_facet_inwards
-    it = iter(script or [])
 
     def wrapper(face, fcs):
-        b = bool(orig(face, fcs)) if script is None else next(it)
-        calls.append(len(fcs))
-        bits.append(b)
+        # which face is the seed: the code passes msh[seed] and (now) the whole mesh in face order
+        hit = [k for k in range(len(fcs)) if np.array_equal(fcs[k], face, equal_nan=True)] if len(fcs) == len(farr) else []
+        triple = tuple(int(x) for x in farr[hit[0]]) if hit else (-1, -1, -1)
+        b = bool(orig(face, fcs)) if script is None else scripted_bit(triple, script)
+        calls.append((triple, len(fcs)))
+        bits.append((triple, b))
         return b
     tm.is_facet_inwards = wrapper
     try:
-        v = np.array(verts, dtype=float) if verts is not None else np.zeros((int(farr.max()) + 1 if len(farr) else 1, 3))
+        nvv = int(farr.max()) + 1 if len(farr) else 1
+        v = np.array(verts, dtype=float) if verts is not None else \
+            np.array([(k, k * k, k ** 3) for k in range(nvv)], dtype=float)
         mask = tm.get_inwards_mask(v, farr)
         fixed = tm.fix_trimesh_orientation(v, farr) if script is None else None
     finally:
@@ -1201,10 +1212,12 @@ def impl_index_run(faces, verts=None, script=None):
         if not np.array_equal(np.asarray(src2.status_open_data).reshape(-1, 2), np.asarray(open_edges).reshape(-1, 2)):
             raise RuntimeError("status_open_data differs from get_open_edges(faces)")
         fixed = np.asarray(src2.faces)
+    if len({t for t, _ in bits}) != len(dict(bits)) or any(dict(bits)[t] != b for t, b in bits):
+        raise RuntimeError("is_facet_inwards gave two answers for the same seed face")
     return {"faces": farr.tolist(), "open": np.asarray(open_edges).tolist(),
-            "subsets": [np.asarray(s).tolist() for s in subsets], "oracle": bits, "calls": calls,
+            "subsets": [np.asarray(s).tolist() for s in subsets], "oracle": list(dict(bits).items()), "calls": calls,
             "mask": [bool(x) for x in mask], "fixed": np.asarray(fixed).tolist(),
-            "st_open": bool(st_open), "st_disc": bool(st_disc)}
+            "st_open": bool(st_open), "st_disc": bool(st_disc), "script": script}
 
 
 def c_case(r):
@@ -1212,8 +1225,8 @@ def c_case(r):
         c_list([c_face(f) for f in r["faces"]]),
         c_list(["(%d, %d)" % (e[0], e[1]) for e in r["open"]]),
         c_list([c_list([c_face(f) for f in s]) for s in r["subsets"]]),
-        c_list([c_bool(b) for b in r["oracle"]]),
-        c_list(["%d%%nat" % k for k in r["calls"]]),
+        c_list(["(%s, %s)" % (c_face(t), c_bool(b)) for t, b in r["oracle"]]),
+        c_list(["(%s, %d%%nat)" % (c_face(t), k) for t, k in r["calls"]]),
         c_list([c_bool(b) for b in r["mask"]]),
         c_list([c_face(f) for f in r["fixed"]]), c_bool(r["st_open"]), c_bool(r["st_disc"]))
 
@@ -1296,7 +1309,7 @@ def correspondence(ctx, built):
     abstract = [gen_abstract_faces(rng) for _ in range(ctx.n(500, 6000))]
     abstract += exhaustive_abstract(3, 2) if ctx.tier == "quick" else exhaustive_abstract(4, 2)
     for faces in abstract:
-        add(faces, script=[rng.random() < 0.5 for _ in range(len(faces) + 1)], label="abstract")
+        add(faces, script=rng.randrange(1 << 20), label="abstract")
     if runs:
         ctx.samples.append({"correspondence_case": runs[0]})
     if not built:
@@ -1308,7 +1321,7 @@ def correspondence(ctx, built):
     for bi, code in list(bad.items())[:4]:
         r = runs[bi]
         names = [n for b, n in CODE_NAMES.items() if code & b]
-        script = r["oracle"] + [False] * (len(r["faces"]) + 1)
+        script = r["script"] if r.get("script") is not None else 12345
 
         def fails(faces, script=script):
             if not faces:
